@@ -206,7 +206,8 @@ class FlipEnumParallel(ADEVPrimitive):
         (ret_primals,), (ret_tangents,) = Dual.tree_unzip(ret_duals)
 
         def _inner(p, ret):
-            return jnp.sum(jnp.array([p, 1 - p]) * ret)
+            # contract the outcome axis only: the continuation's value may be an array
+            return jnp.tensordot(jnp.array([p, 1 - p]), ret, axes=1)
 
         return Dual(
             *jax.jvp(
